@@ -373,17 +373,18 @@ class Call:
         return result
 
     def eval_new_data_proportion(self, data_mask):
-        if self._intermediate_data.trials_type == "constant":
-            # Return value passed in the second component
-            result = np.ones(len(data_mask.index)) * self.call.args[1].value
+        # The trials can be passed by position or by name, and can be a constant, a variable,
+        # or any expression. They are evaluated with the new data.
+        if "trials" in self.call.kwargs:
+            trials = self.call.kwargs["trials"]
         else:
-            # Extract name of the second component
-            name = self.call.args[1].name
-            values = data_mask[name]
-            if isinstance(values, pd.Series):
-                values = values.values
-            result = values
-        return result
+            trials = self.call.args[1]
+        values = trials.eval(data_mask, self.env)
+        if isinstance(values, pd.Series):
+            values = values.values
+        if np.ndim(values) == 0:
+            values = np.ones(len(data_mask.index)) * values
+        return values
 
     @property
     def labels(self):
